@@ -1,3 +1,18 @@
+mod c20;
+mod c23;
+mod c23_agents;
+mod c25;
+mod c26;
+mod net;
+mod spec;
+
+use pvkit::session::CheckDef;
+
 fn main() {
-    pvkit::main(&[]);
+    pvkit::main(&[
+        CheckDef { id: "C26", level: "exploration", run: c26::run },
+        CheckDef { id: "C25", level: "exploration", run: c25::run },
+        CheckDef { id: "C20", level: "exploration", run: c20::run },
+        CheckDef { id: "C23", level: "exploration", run: c23::run },
+    ]);
 }
